@@ -1,6 +1,7 @@
 import Zc.Model.LinkBridge
 import Zc.Proofs.Goodbye
 import Zc.Proofs.LinkContracts
+import Zc.GenFacts.Link
 /-! K6 for every disciplined timed run of the C08 host machine (`Zc.Goodbye.Host`), via C08's invariant `Clean`
 (`run_clean` / `step_clean` / `unregister_clean`). -/
 namespace Zc.Bridge
@@ -213,7 +214,7 @@ theorem sigma_of_key (s s' : Register.Svc) (hk : key lower s = key lower s') (ht
 theorem J_step (hty : Function.Injective N.tyId) (hsv : Function.Injective N.svcId) (r : Rec) (alias : String)
     (hr : WfPtr r alias) (st : Step) (hs : st.pre.step lower st.b = some (st.post, st.out)) (hw : WF lower st.pre)
     (hd : Disc lower st) (hj : J lower N r alias st.pre) : J lower N r alias st.post := by
-  obtain ⟨t, b, h, h', out⟩ := st
+  obtain ⟨t, b, h, h', out, ad⟩ := st
   simp only at hs hw hj ⊢
   -- the clean case is the same for every block that does not re-register the pointer
   have cleanCase : Clean lower [r] h → ¬ reRegisters lower [r] b → J lower N r alias h' :=
@@ -387,7 +388,7 @@ theorem unregs_stepEvents (st : Step) :
   simp [stepEvents, Link.unregs, List.filterMap_append, List.filterMap_map, Function.comp_def, filterMap_const_none]
 
 theorem sends_stepEvents (st : Step) :
-    Link.sends (stepEvents lower N st) = st.out.map (fun p => ⟨st.t, N.host, 0, none, itemsOf lower N p⟩) := by
+    Link.sends (stepEvents lower N st) = st.out.map (fun p => ⟨st.t, N.host, 0, dstOf st.b st.adst, itemsOf lower N p⟩) := by
   simp [stepEvents, Link.sends, List.filterMap_append, List.filterMap_map, Function.comp_def, filterMap_const_none]
 
 theorem upds_append (a b : Link.Trace) : Link.upds (a ++ b) = Link.upds a ++ Link.upds b := by
@@ -461,7 +462,7 @@ theorem run_time_ge : ∀ (steps : List Step) (h : Host) (T : Int), IsRun lower 
   | cons s0 rest ih =>
     intro h T hrun st hst
     cases hrun with
-    | cons _ h' _ t b out _ hs hT hbt hrest =>
+    | cons _ h' _ t b out ad _ hs hT hbt hrest =>
       rcases List.mem_cons.mp hst with rfl | hst
       · exact hT
       · have := ih h' t hrest st hst
@@ -474,11 +475,11 @@ theorem run_split_ge : ∀ (pre : List Step) (st : Step) (post : List Step) (h :
   | nil =>
     intro st post h T hrun st' hst'
     cases hrun with
-    | cons _ h' _ t b out _ hs hT hbt hrest => exact run_time_ge lower post h' t hrest st' hst'
+    | cons _ h' _ t b out ad _ hs hT hbt hrest => exact run_time_ge lower post h' t hrest st' hst'
   | cons s0 pre' ih =>
     intro st post h T hrun st' hst'
     cases hrun with
-    | cons _ h' _ t b out _ hs hT hbt hrest => exact ih st post h' t hrest st' hst'
+    | cons _ h' _ t b out ad _ hs hT hbt hrest => exact ih st post h' t hrest st' hst'
 
 /-- along a disciplined run every pointer sent with a TTL has, among the events *before* its step, a `reg` of its service
 at least 350 ms old that is later than all `unreg`s of that service so far -/
@@ -498,7 +499,7 @@ theorem run_sends (hty : Function.Injective N.tyId) (hsv : Function.Injective N.
   | cons s0 rest ih =>
     intro h T E hrun hw hj hh hd hsp pre st post hsplit p hp r hr alias hwf httl
     cases hrun with
-    | cons _ h' _ t b out _ hs hT hbt hrest =>
+    | cons _ h' _ t b out ad _ hs hT hbt hrest =>
       cases pre with
       | nil =>
         simp only [List.nil_append, List.cons.injEq] at hsplit
@@ -515,18 +516,18 @@ theorem run_sends (hty : Function.Injective N.tyId) (hsv : Function.Injective N.
       | cons p0 pre' =>
         simp only [List.cons_append, List.cons.injEq] at hsplit
         obtain ⟨rfl, hrest'⟩ := hsplit
-        have hd0 : Disc lower ⟨t, b, h, h', out⟩ := hd _ (by simp)
-        have hsp0 : ∀ s ∈ adds lower N ⟨t, b, h, h', out⟩, ∀ x ∈ Link.unregs E, x.2 = s → x.1 < t - 350 := by
+        have hd0 : Disc lower ⟨t, b, h, h', out, ad⟩ := hd _ (by simp)
+        have hsp0 : ∀ s ∈ adds lower N ⟨t, b, h, h', out, ad⟩, ∀ x ∈ Link.unregs E, x.2 = s → x.1 < t - 350 := by
           intro s hs' x hx hxs
-          have := hsp [] ⟨t, b, h, h', out⟩ rest rfl s hs' x (by simpa [events_nil] using hx) hxs
+          have := hsp [] ⟨t, b, h, h', out, ad⟩ rest rfl s hs' x (by simpa [events_nil] using hx) hxs
           exact this
         have hw' := wf_step lower h h' b out hw hs
         have hj' : ∀ r alias, WfPtr r alias → J lower N r alias h' :=
-          fun r alias hwf => J_step lower N hty hsv r alias hwf ⟨t, b, h, h', out⟩ hs hw hd0 (hj r alias hwf)
-        have hh' := Hist_step lower N E ⟨t, b, h, h', out⟩ T hh hT hsp0
-        have hsp' : Spaced lower N (E ++ stepEvents lower N ⟨t, b, h, h', out⟩) rest := by
+          fun r alias hwf => J_step lower N hty hsv r alias hwf ⟨t, b, h, h', out, ad⟩ hs hw hd0 (hj r alias hwf)
+        have hh' := Hist_step lower N E ⟨t, b, h, h', out, ad⟩ T hh hT hsp0
+        have hsp' : Spaced lower N (E ++ stepEvents lower N ⟨t, b, h, h', out, ad⟩) rest := by
           intro pre2 st2 post2 hsplit2 s hs2 x hx hxs
-          have := hsp (⟨t, b, h, h', out⟩ :: pre2) st2 post2 (by rw [hsplit2]; rfl) s hs2 x
+          have := hsp (⟨t, b, h, h', out, ad⟩ :: pre2) st2 post2 (by rw [hsplit2]; rfl) s hs2 x
             (by rw [events_cons, ← List.append_assoc]; exact hx) hxs
           exact this
         obtain ⟨r1, hr1, hle, hun⟩ := ih h' t _ hrest hw' hj' hh' (fun st hst => hd st (by simp [hst])) hsp'
@@ -579,7 +580,7 @@ theorem ptrItem_some (p : Pkt) (r : Rec) (s : Link.Svc) (ttl : Nat) (full : Bool
   | nsec a b => rw [hrd] at h; cases h
 
 theorem mem_sends_events : ∀ (l : List Step) (sd : Link.SendE), sd ∈ Link.sends (events lower N l) →
-    ∃ st ∈ l, ∃ p ∈ st.out, sd = ⟨st.t, N.host, 0, none, itemsOf lower N p⟩ := by
+    ∃ st ∈ l, ∃ p ∈ st.out, sd = ⟨st.t, N.host, 0, dstOf st.b st.adst, itemsOf lower N p⟩ := by
   intro l
   induction l with
   | nil => intro sd h; simp [events_nil, Link.sends] at h
@@ -682,7 +683,7 @@ theorem mkRun_isRun : ∀ (sched : List (Int × Block)) (h : Host) (T : Int) (st
           rw [hr] at hm
           simp only [Option.map_some, Option.some.injEq] at hm
           subst hm
-          refine IsRun.cons h h' T t b out l hs hc.1 ?_ (ih h' t l hr)
+          refine IsRun.cons h h' T t b out none l hs hc.1 ?_ (ih h' t l hr)
           intro bt hbt
           rcases hc.2 with hn | hs'
           · rw [hn] at hbt; cases hbt
@@ -691,13 +692,15 @@ theorem mkRun_isRun : ∀ (sched : List (Int × Block)) (h : Host) (T : Int) (st
 
 /-! ### from the hosts to the link trace -/
 
-/-- every host's part of the link trace `tr` — its sends (instant and items), the `reg`s and the `unreg`s of its services —
-is that of a disciplined timed run of the C08 host machine -/
+/-- every host's part of the link trace `tr` that the C08 host machine owns — its sends **that carry a pointer record** (instant and
+items; the questions a host sends — browser queries, probes — are the browser scheduler's and the registration's, not this
+machine's), the `reg`s and the `unreg`s of its services — is that of a disciplined timed run of the machine -/
 def GeneratedK6 (tr : Link.Trace) : Prop :=
   ∀ hid : Nat, ∃ (N : Naming) (steps : List Step) (T0 : Int),
     N.host = hid ∧ Function.Injective N.tyId ∧ Function.Injective N.svcId ∧
     IsRun lower Host.init T0 steps ∧ (∀ st ∈ steps, Disc lower st) ∧ Spaced lower N [] steps ∧
-    (∀ sd ∈ Link.sends tr, sd.h = hid → ∃ sd' ∈ Link.sends (events lower N steps), sd'.t = sd.t ∧ sd'.items = sd.items) ∧
+    (∀ sd ∈ Link.sends tr, sd.h = hid → Link.ptrSvcs sd.items ≠ [] →
+      ∃ sd' ∈ Link.sends (events lower N steps), sd'.t = sd.t ∧ sd'.items = sd.items) ∧
     (∀ x ∈ Link.regs (events lower N steps), x ∈ Link.regs tr) ∧
     (∀ x ∈ Link.unregs tr, x.2.owner = hid → x ∈ Link.unregs (events lower N steps))
 
@@ -712,7 +715,7 @@ theorem K6_of_generated (tr : Link.Trace) (hg : GeneratedK6 lower tr) : Link.K6 
   | false => rfl
   | true =>
     obtain ⟨N, steps, T0, hN, hty, hsv, hrun, hd, hsp, hsends, hregs, hunregs⟩ := hg sd.h
-    obtain ⟨sd', hsd', ht, hit⟩ := hsends sd hsd rfl
+    obtain ⟨sd', hsd', ht, hit⟩ := hsends sd hsd rfl (List.ne_nil_of_mem hs)
     have hk := K6_of_run lower N hty hsv steps T0 hrun hd hsp
     have h1 := List.all_eq_true.mp (List.all_eq_true.mp hk sd' hsd') s (by rw [hit]; exact hs)
     rw [hit, hpos] at h1
@@ -741,7 +744,7 @@ theorem run_step_of_mem : ∀ (steps : List Step) (h : Host) (T : Int), IsRun lo
   | cons s0 rest ih =>
     intro h T hrun st hst
     cases hrun with
-    | cons _ h' _ t b out _ hs hT hbt hrest =>
+    | cons _ h' _ t b out ad _ hs hT hbt hrest =>
       rcases List.mem_cons.mp hst with rfl | hst
       · exact ⟨hs, hbt⟩
       · exact ih h' t hrest st hst
@@ -838,21 +841,21 @@ theorem exec_allStep (st : Step) (a : AllTask) (hs : st.pre.step lower st.b = so
   rw [← hpost]
   simp [hi]
 
-theorem mcastAt_of_out (steps : List Step) (st : Step) (hst : st ∈ steps) (p : Pkt) (hp : p ∈ st.out) (s : Link.Svc)
-    (hs : s.owner = N.host) (hb : Link.bye s (itemsOf lower N p) = true) :
+theorem mcastAt_of_out (steps : List Step) (st : Step) (hst : st ∈ steps) (hdst : dstOf st.b st.adst = none) (p : Pkt)
+    (hp : p ∈ st.out) (s : Link.Svc) (hs : s.owner = N.host) (hb : Link.bye s (itemsOf lower N p) = true) :
     Link.mcastAt (events lower N steps) s.owner st.t (Link.bye s) = true := by
   rw [Link.mcastAt_iff]
   refine ⟨⟨st.t, N.host, 0, none, itemsOf lower N p⟩, ?_, hs.symm, rfl, rfl, hb⟩
   obtain ⟨pre, post, rfl⟩ := List.append_of_mem hst
   rw [events_append, events_cons, sends_append, sends_append, sends_stepEvents]
-  exact List.mem_append_right _ (List.mem_append_left _ (List.mem_map.mpr ⟨p, hp, rfl⟩))
+  exact List.mem_append_right _ (List.mem_append_left _ (List.mem_map.mpr ⟨p, hp, by rw [hdst]⟩))
 
 /-- which blocks take a service out of the registry -/
 theorem removes_cases (st : Step) (hs : st.pre.step lower st.b = some (st.post, st.out)) (hd : Disc lower st) (s : Link.Svc)
     (hr : s ∈ removes lower N st) :
     (∃ s' oid now, st.b = .unregister s' oid now ∧ s = sigma lower N s') ∨
     (∃ now, st.b = .unregisterAll now ∧ st.pre.reg.isEmpty = false ∧ ∃ e ∈ st.pre.reg, sigma lower N e.svc = s) := by
-  obtain ⟨t, b, h, h', out⟩ := st
+  obtain ⟨t, b, h, h', out, ad⟩ := st
   simp only [removes, List.mem_filter, Bool.not_eq_true', List.contains_eq_mem, decide_eq_false_iff_not, sig, List.mem_map] at hr
   obtain ⟨⟨e, he, hes⟩, hnot⟩ := hr
   simp only at hs hd he hnot ⊢
@@ -964,7 +967,8 @@ theorem K2l_of_run (steps : List Step) (T0 endT : Int) (hrun : IsRun lower Host.
       have ht2 : τ.due = st2.t := (hstep st2 hst2).2 τ.due (by rw [hb2]; rfl)
       refine ⟨?_, fun hi => ⟨pre1 ++ st1 :: p1, st2, p2, _, ?_, hex.2 hi, httl, hsvc, hint, ?_, rfl⟩⟩
       · rw [ht2]
-        refine mcastAt_of_out lower N steps st2 hst2 (broadcastPkt τ.svc (some 0) τ.addresses) (by rw [hex.1]; simp) u.2 howner ?_
+        refine mcastAt_of_out lower N steps st2 hst2 (by rw [hb2]; exact Zc.GenFacts.Link.dstOf_task _ _ _ _ _)
+          (broadcastPkt τ.svc (some 0) τ.addresses) (by rw [hex.1]; simp) u.2 howner ?_
         rw [hsig, hsvc]
         exact broadcastPkt_bye lower N s' τ.addresses
       · rw [hsp1, hpost1]; simp
@@ -1030,13 +1034,14 @@ theorem K2l_of_run (steps : List Step) (T0 endT : Int) (hrun : IsRun lower Host.
       have ht2 : a.due = st2.t := (hstep st2 hst2).2 a.due (by rw [hb2]; rfl)
       refine ⟨?_, fun hi => ⟨pre1 ++ st1 :: p1, st2, p2, _, ?_, hex.2 hi, hans, ?_, rfl⟩⟩
       · rw [ht2]
-        exact mcastAt_of_out lower N steps st2 hst2 (allPkt a.answers) (by rw [hex.1]; simp) u.2 howner (by rw [hans]; exact hbyeA)
+        exact mcastAt_of_out lower N steps st2 hst2 (by rw [hb2]; exact Zc.GenFacts.Link.dstOf_allStep _ _) (allPkt a.answers)
+          (by rw [hex.1]; simp) u.2 howner (by rw [hans]; exact hbyeA)
       · rw [hsp1, hpost1]; simp
       · simp only [Zc.GenFacts.Goodbye.unregisterTime_eq]; rfl
     refine ⟨?_, ?_, ?_⟩
     · by_cases h0 : u.1 + 0 ≤ endT
       · right
-        have := mcastAt_of_out lower N steps st hst (allPkt A)
+        have := mcastAt_of_out lower N steps st hst (by rw [hb]; exact Zc.GenFacts.Link.dstOf_unregisterAll _ _) (allPkt A)
           (by rw [← hout]; simp [emit, Zc.GenFacts.Goodbye.send_is_noop_eq, hopen st hst, A]) u.2 howner hbyeA
         simpa [hut] using this
       · left; exact h0
